@@ -32,7 +32,7 @@ def main():
         reg = props.REGISTRY[a.prop]
         run = checklib.Run(a.prop, a.tier, seed)
         rng = random.Random(seed * 1000003 + int(a.prop[1:]))
-        lean = checklib.lean_status(a.prop)
+        lean = checklib.lean_status(a.prop, a.tier)
         extra = reg["run"](run, rng) or {}
         # a file this property depends on differs from the tree the model was last validated against: look harder
         # (more random streams / scenarios with fresh seeds). This never changes a verdict by itself.
